@@ -482,6 +482,13 @@ func (e *Engine) callFunction(caller *frame, fn *ssa.Function, args []Value, env
 		// their globals (or by verif.InitPackage)
 		return nil
 	}
+	if fi.pkgPath == "reflect" {
+		for _, a := range args {
+			if _, ok := a.(ReflectVal); ok {
+				e.unsupported("reflect method without intrinsic: " + fi.name)
+			}
+		}
+	}
 	if fi.pkgPath != "" && e.stubPkgs[fi.pkgPath] && fn.Parent() == nil {
 		e.stubsUsed["pkg:"+fi.pkgPath] = true
 		return e.zeroResults(fn.Signature)
